@@ -47,6 +47,10 @@ var Frags = []string{
 	// further Unicode classes: symbols (Sc So Sm), a four-byte character, connector and dash punctuation, a number,
 	// a combining mark, NEL, line separator, zero-width space (Cf), ideographic space (Zs), U+FFFD, title case, ligature, sigmas
 	"€", "©", "±", "😀", "‿", "–", "½", "e\u0301", "\u0085", "\u2028", "\u200b", "\u3000", "\ufffd", "ǅ", "ﬁ", "Σ", "ς",
+	// numeric character references of every class (C1 range that HTML remaps, controls, surrogates, out of range, noncharacters, NUL)
+	"&#150;", "&#x80;", "&#128;", "&#159;", "&#x9F;", "&#9;", "&#10;", "&#13;", "&#127;", "&#xD800;", "&#x110000;", "&#xFFFE;", "&#1114111;", "&#x10FFFF;", "&#0000060;", "&#X3c;",
+	// percent escapes cut short at the end of a destination, supplementary-plane punctuation and letters
+	"%4", "/x%4)", "](/x%f)", "<http://a.b/%f>", "[r]: /50%2\n", "/caf\u00e9)", "/a|b|)", "\U00010100", "\U0001091F", "\U00010400", "a\U00010100*b*",
 	// numbers with leading zeros and of 9-11 digits, as list markers and as text
 	"08. ", "0019. ", "000000089) ", "010. ", "0123456789. ", "0000000001) ", "00000000000.", "123456789. ", "1234567890. ", "09)", "007",
 	"####### ", "#######", "###### ", "######",
